@@ -4,6 +4,7 @@ properties (C03, C09). `plain` shapes contain no `OneOf` anywhere (every single-
 -/
 import ShapeVerif.Lemmas.Sorted
 import ShapeVerif.Model.Subset
+import ShapeVerif.Lemmas.Admits
 namespace ShapeVerif
 open Shape Std
 
